@@ -180,7 +180,8 @@ def check(report, tier, only=None):
            # whatever a request stream carries, its failure is that stream's alone: the handler performs no connection-level operation
            ('request_failure_confined', lambda rep: __import__('props.C12', fromlist=['x']).ob_handle_no_connection_ops(rep, PROP)),
            # the header frame is decoded by the derived serde impls of the raw header structs (no hand-written visitor sized by attacker-chosen counts)
-           ('raw_header_fields', C07_e2.ob_serde_fields)]
+           ('raw_header_fields', C07_e2.ob_serde_fields),
+           ('removal_entry_points', lambda rep: __import__('props.C04', fromlist=['x']).ob_removal_entry_points(rep))]
     for n, f in obs:
         if only and not any(s in n for s in only):
             continue
